@@ -1,7 +1,7 @@
 (* C07 - The traced schema does not depend on sample order or repetition.
    Model: Trace/Tracer.v (trace, to_field, from_samples), compared with the crate on every run
    (exhaustive leaf pairs x 16 option sets, triples, nested shapes). *)
-From Verif Require Import Tracer Coerce Coerce_proofs CoerceTable CoerceTable_proofs TracerTablesSpec Null_proofs Struct_proofs Project_proofs FlatRecords_proofs Nested_order.
+From Verif Require Import Tracer Coerce Coerce_proofs CoerceTable CoerceTable_proofs TracerTablesSpec Null_proofs Struct_proofs Project_proofs FlatRecords_proofs Nested_order Nested_schema.
 From Coq Require Import Permutation.
 
 (* Full-strength statement (kept visible): evaluated on the implementation on every run by the
@@ -190,6 +190,20 @@ Proof.
   - do 2 eexists. split; [vm_compute; reflexivity|]. split; [vm_compute; reflexivity|]. discriminate.
 Qed.
 
+(* ... and at the level of schemas: from_samples on nested data (the class Hom) gives, for the same samples in any two orders that both
+   succeed, the same schema up to the order of struct fields at every level (sdeq: the same field names, and for every name fields
+   that agree in name, nullability, strategy and - recursively - data type).  This is C07_full restricted to the class Hom. *)
+Theorem C07_from_samples_order_independent_nested : forall o n vs vs' fs1 fs2,
+  Hom o n vs -> Permutation vs vs' ->
+  from_samples o [] vs = Ok fs1 -> from_samples o [] vs' = Ok fs2 -> sdeq (SStruct fs1) (SStruct fs2).
+Proof. exact from_samples_order_independent. Qed.
+
+Definition c07_s3' : Value := VStruct [(b "tags", VSeq []); (b "id", VInt I32 3); (b "items", VSeq [])].
+Example C07_nested_schema_example :
+  exists fs1 fs2, from_samples default_opts [] [c07_s1; c07_s2; c07_s3'] = Ok fs1 /\ from_samples default_opts [] [c07_s3'; c07_s1; c07_s2] = Ok fs2 /\
+                  map sf_name fs1 = [b "id"; b "tags"; b "pos"; b "items"] /\ map sf_name fs2 = [b "tags"; b "id"; b "items"; b "pos"].
+Proof. do 2 eexists. vm_compute. repeat split; reflexivity. Qed.
+
 Print Assumptions C07_leaf_perm_partial.
 Print Assumptions C07_leaf_success_order_free_partial.
 Print Assumptions C07_coerce_arms_match_model.
@@ -198,3 +212,4 @@ Print Assumptions C07_fields_in_first_seen_order.
 Print Assumptions C07_record_projection.
 Print Assumptions C07_tables_order_independent.
 Print Assumptions C07_nested_order_independent.
+Print Assumptions C07_from_samples_order_independent_nested.
